@@ -8,7 +8,7 @@ CONSTANTS
   MaxTxt = 255
   MaxPacket = 1000
   NameLen = 60
-  ChunkAt = 0
+  ChunkAt = 254
   Pool <- MC_Pool
   UdSample <- MC_UdSample
   Foreign <- MC_Foreign
